@@ -214,7 +214,7 @@ void check_vec_single(Vec<T, N> const &a, int const mode, T const k, std::index_
     if (fv::length_square(v) != len) verif::fail("vector::length_square|vs-reference|" + L, what() + ": " + std::to_string(static_cast<long long>(fv::length_square(v))));
     // push_back / narrow_cast
     auto const pushed = fv::push_back(v, k);
-    static_assert(std::is_same_v<std::remove_cv_t<decltype(pushed)>, svec<T, N + 1>>);
+    VERIF_TYPE_FACT((std::is_same_v<std::remove_cv_t<decltype(pushed)>, svec<T, N + 1>>), "std::is_same_v<std::remove_cv_t<decltype(pushed)>, svec<T, N + 1>>");
     auto const parr = to_arr(pushed);
     bool ok = parr[N] == k;
     for (std::size_t i = 0; i < N; ++i) ok = ok && parr[i] == a[i];
